@@ -231,12 +231,19 @@ func (dec *msgAppV2Decoder) decode() (raftpb.Message, error) {
 			return m, err
 		}
 		l := binary.BigEndian.Uint64(dec.uint64buf)
+		// every entry takes at least its 8 bytes length prefix on the wire
+		if l > readBytesLimit/8 {
+			return m, ErrExceedSizeLimit
+		}
 		m.Entries = make([]raftpb.Entry, int(l))
 		for i := 0; i < int(l); i++ {
 			if _, err := io.ReadFull(dec.r, dec.uint64buf); err != nil {
 				return m, err
 			}
 			size := binary.BigEndian.Uint64(dec.uint64buf)
+			if size > readBytesLimit {
+				return m, ErrExceedSizeLimit
+			}
 			var buf []byte
 			if size <= msgAppV2BufSize {
 				buf = dec.buf[:size]
@@ -265,6 +272,9 @@ func (dec *msgAppV2Decoder) decode() (raftpb.Message, error) {
 		var size uint64
 		if err := binary.Read(dec.r, binary.BigEndian, &size); err != nil {
 			return m, err
+		}
+		if size > readBytesLimit {
+			return m, ErrExceedSizeLimit
 		}
 		var buf []byte
 		if size <= msgAppV2BufSize {
